@@ -21,7 +21,7 @@ import (
 func init() {
 	register(&Prop{
 		ID: "C13", Level: "exploration", Quick: 40000, Thorough: 2000000,
-		Rule: "trial = (snps | variants(gb,gff) | sam variants, generated input with shared mutations, threshold drawn from {0, an occurring frequency, between two occurring frequencies, 1}, append-snps); per-sequence mode once and aggregate mode under 4 (quick) / 10 (thorough) seeded schedules and map orders; non-trivial = at least 2 sequences, at least 2 distinct mutations and at least one mutation shared by two sequences; distinct = distinct (input, options)",
+		Rule:  "trial = (snps | variants(gb,gff) | sam variants, generated input with shared mutations, threshold drawn from {0, an occurring frequency, between two occurring frequencies, 1}, append-snps); per-sequence mode once and aggregate mode under 4 (quick) / 10 (thorough) seeded schedules and map orders; non-trivial = at least 2 sequences, at least 2 distinct mutations and at least one mutation shared by two sequences; distinct = distinct (input, options)",
 		Gen:   genC13,
 		Check: checkC13,
 	})
